@@ -63,6 +63,7 @@ ASSUMPTIONS = [
 
 RELS = ["le", "lt", "ge", "gt", "ne", "eq"]
 LAMS = [1, 0.5, 2, 3.25, 10]
+BIG_M = 2 ** 40
 BMODES = ["none", "lo", "hi", "exact", "loose_int", "loose_half"]
 BOOL_ARGS = ["dict", "PUBO", "PCBO", "QUBO"]
 SPIN_ARGS = ["dict", "PUSO", "PCSO", "QUSO"]
@@ -228,7 +229,16 @@ def _finish_constraint(d):
     terms = [[tuple(k), v] for k, v in terms]
     if d["aimed"]:
         terms = _aim(terms, d["rel"])
-    out = {k: v for k, v in d.items() if k not in ("shaped", "perm")}
+    if d.get("bigM") and len(d["labels2"]) >= 2:
+        # big-M form: two huge terms that cancel on half of the assignments next to order-1 terms (all values are
+        # integers, exact in binary floating point).  Recorded with lam = 0 (documented: the constraint is remembered
+        # for is_solution_valid, no penalty is added), so only the validity clause is exercised - the penalty of such a
+        # constraint would need 40 slack bits.
+        l0, l1 = d["labels2"][0], d["labels2"][1]
+        small = [t for t in terms if len(t[0]) <= 1 and t[0] not in ((l0,), (l1,))][:2]
+        terms = [[(l0,), BIG_M], [(l1,), -BIG_M]] + small
+        name = "bigM"
+    out = {k: v for k, v in d.items() if k not in ("shaped", "perm", "labels2", "bigM")}
     out["shape"] = name
     out["terms"] = _shuffle(terms, d["perm"])
     return out
@@ -258,6 +268,8 @@ def _constraint_strategy(labels_t, spin, quad):
         # build the constraint on an empty model of the same type and merge it with the documented update(model)
         # (used only while the target has no ancillas of its own: equal names of different origin would be conflated)
         "via_update": st.sampled_from([False, False, False, False, True]),
+        "bigM": gen.pick((False, 11), (True, 1)),
+        "labels2": st.just(list(labels)),
     }).map(_finish_constraint)
 
 
@@ -515,6 +527,8 @@ def run(spec, rec, spin):
             classes.add("refreshed_midway")
 
         rel, lam, log = c["rel"], c["lam"], bool(c["log_trick"])
+        if c.get("shape") == "bigM":
+            lam = 0
         terms_list = [[tuple(k), v] for k, v in c["terms"]]
         P_terms = gen.terms_dict(terms_list)
         P_labels = ref.labels_of(P_terms)
